@@ -27,7 +27,8 @@ import BufModel.ConfigGen
       plugin        = ( name out opt:any-strs path strategy )
     env             = ( ((remote-name host) ...) (valid module names) (valid paths) (LookPath hits) )
 
-  output  err | ok <c1> <written v2 body> (same | <c2> | reread-err)
+  output  err | ok <c1> <written v2 body> (same | <c2>) (norm-agree | norm-DISAGREE)  |  ok <c1> <written> reread-err
+    (4th field: BufModel.ConfigGen.normalise of c1 equals the re-read configuration)
     c               = ( clean (plugin ...) ( enabled (disable ...) (override ...) ) (type include) (input ...) )
 -/
 namespace Driver.C16Gen
@@ -301,12 +302,14 @@ def handleGen (n : N) : String :=
     | none => "err"
     | some c1 =>
       let w := writeGen env c1
-      let third :=
-        match readGen env (.v2 w) with
-        | none => "reread-err"
-        | some c2 =>
-          -- "same" is decided on the accessor view, exactly as the harness does
-          if render (genFileN c2) = render (genFileN c1) then "same" else render (genFileN c2)
-      "ok " ++ render (genFileN c1) ++ " " ++ render (extV2N w) ++ " " ++ third
+      match readGen env (.v2 w) with
+      | none => "ok " ++ render (genFileN c1) ++ " " ++ render (extV2N w) ++ " reread-err"
+      | some c2 =>
+        -- "same" is decided on the accessor view, exactly as the harness does
+        let third := if render (genFileN c2) = render (genFileN c1) then "same" else render (genFileN c2)
+        -- `normalise` (theorem gen_reread_eq_normalise) is evaluated too: what was re-read is the
+        -- normal form of what was read
+        let fourth := if render (genFileN (normalise env c1)) = render (genFileN c2) then "norm-agree" else "norm-DISAGREE"
+        "ok " ++ render (genFileN c1) ++ " " ++ render (extV2N w) ++ " " ++ third ++ " " ++ fourth
 
 end Driver.C16Gen
